@@ -225,16 +225,28 @@ AnglesArg(lon, lat, latitude) == IF latitude THEN <<lon, lat>> ELSE <<lon, 900 -
 (* cm = 1 - cos(theta) is exact in binary for theta = 60, 90, 120 deg (halves).              *)
 CapThetas10 == {600, 900, 1200}
 CapCmHalves(t) == CASE t = 600 -> 1 [] t = 900 -> 2 [] t = 1200 -> 3
-SelfRels == {"coincident", "antipode", "antipode-negated"}   \* antipode as (RA+180, -Dec); as the negated vector
-SelfSep10(rel) == IF rel = "coincident" THEN 0 ELSE 1800
+ExactRels == {"coincident", "antipode", "antipode-negated"}   \* antipode as (RA+180, -Dec); as the negated vector
+(* the same point / the exact antipode with both coordinates (or one) shifted by uniform     *)
+(* offsets of at most `scale`: the pairs for which half-chords and sines of half distances   *)
+(* round to 1 + 1 ulp although the exact antipode itself does not                             *)
+NearRels == {"near-coincident", "near-antipode"}
+SelfRels == ExactRels \cup NearRels
+NearScales == {1, 100, 1000, 10000, 100000, 1000000}          \* units of 1e-12 deg: 1e-12 ... 1e-6 deg
+SelfSep10(rel) == IF rel \in {"coincident", "near-coincident"} THEN 0 ELSE 1800
 CapSelfDist10(t, rel, sgn) == sgn * (t - SelfSep10(rel))
 CapSelfInside(t, rel, sgn) == CapSelfDist10(t, rel, sgn) >= 0
-(* record "self" = a batch of n centres: fn (gcirc | cap_distance), conv (u0 u1 u2 | radec   *)
-(* vector), rel; nnan = results that are NaN; disc = largest distance from the specified      *)
-(* value (nano-degrees); wrong = is_in_cap answers that are not the specified ones            *)
+(* record "self" = a batch of n pairs: fn (gcirc | cap_distance), conv (u0 u1 u2 | radec     *)
+(* vector), rel, scale (0 for the exact relations); nnan = results that are NaN; disc =      *)
+(* largest distance from the value specified for the exact relation (nano-degrees); wrong =  *)
+(* is_in_cap answers that are not the specified ones (cap_distance), results outside         *)
+(* [0, 180 deg] (gcirc).  A partner shifted by at most `scale` in each coordinate is within  *)
+(* sqrt(2) scale of the exact one.                                                            *)
+SelfTolNdeg(r) == IF r.rel \in NearRels THEN 2 * ((r.scale \div 1000) + 1) + PosTolNdeg(TRUE)
+                  ELSE IF r.fn = "gcirc" /\ r.rel = "coincident" THEN 0 ELSE PosTolNdeg(TRUE)
 SelfHolds(r) == /\ r.fn \in {"gcirc", "cap_distance"} /\ r.rel \in SelfRels
+                /\ (IF r.rel \in NearRels THEN r.scale \in NearScales ELSE r.scale = 0)
                 /\ r.nnan = 0 /\ r.wrong = 0
-                /\ r.disc <= (IF r.fn = "gcirc" /\ r.rel = "coincident" THEN 0 ELSE PosTolNdeg(TRUE))
+                /\ r.disc <= SelfTolNdeg(r)
 
 (* ===================== 5. the laws over records of real calls ======================== *)
 (* --- gcirc: one record = one pair of points called in the three conventions, both       *)
